@@ -13,7 +13,10 @@ Observation classes (diffs):  LOAD  Ok/Err/Panic and the basic layout of parse+c
                                     stream of generated texts (harness/src/engines/loader_text.rs); the real
                                     load_layout_from_file on the saved file and on re-spaced / mutated
                                     layout files against load_text
-Checker clauses (hits):       C14.panic, C14.accepted_wf, C15.roundtrip, C13.expand"""
+Checker clauses (hits):       C14.panic, C14.accepted_wf, C15.roundtrip, C13.expand,
+                              C13.file_load / C15.file_load (the real load_layout_from_file on the input written as a
+                              file answers differently from parse_layout_from_json+convert in memory),
+                              C14.file_panic (load_layout_from_file panics on some file content)"""
 import os, json, re, time, glob, shutil
 
 NEEDS_MODEL = True
@@ -128,6 +131,18 @@ def replay(ctx, rp):
     """re-run a replay file's input on the real loader and print what it answers"""
     inp = rp.get("input") or (rp.get("first_difference") or {}).get("input") or {}
     text = inp.get("json")
+    if text and text.startswith("hex:"):
+        # a text case: the exact bytes
+        tmp = os.path.join(ctx["build"], "work", "replay-loader.json")
+        os.makedirs(os.path.dirname(tmp), exist_ok=True)
+        open(tmp, "wb").write(bytes.fromhex(text[4:].split(" ")[0]))
+        rc, out, _ = ctx["sh"]([ctx["harness"], "loader-replay", "--json", tmp])
+        print("input bytes: " + text[:2000])
+        print("real code:")
+        print(out)
+        print("recorded: clause=%s class=%s observed=%s expected=%s" % (rp.get("clause"), (rp.get("first_difference") or {}).get("class"),
+              rp.get("observed") or (rp.get("first_difference") or {}).get("impl"), rp.get("expected") or (rp.get("first_difference") or {}).get("model")))
+        return 0
     if not text or not text.lstrip().startswith(("{", "[", '"')) and not re.match(r"^\s*(null|true|false|-?\d)", text):
         print("replay names no concrete JSON input (kind=%s): %s %s" % (rp.get("kind"), rp.get("broken"), text or ""))
         return 0
